@@ -5534,6 +5534,8 @@ def symlink_to_bytes(symlink_target):
         else:
             symlink_data.extend(b'\x05')
             ostaname = _ostaunicode(comp)
+            if len(ostaname) > 255:
+                raise pycdlibexception.PyCdlibInvalidInput('UDF symlink components can be a maximum of 254 bytes once encoded')
             symlink_data.append(len(ostaname))
             symlink_data.extend(b'\x00\x00')
             symlink_data.extend(ostaname)
